@@ -216,6 +216,8 @@ fn peer_def(c: char) -> Result<PeerDef, String> {
         'a' => Ok(mk("192.0.2.2", "192.0.2.1", 65002, [192, 0, 2, 2], false)),
         'b' => Ok(mk("2001:db8::2", "2001:db8::1", 4_200_000_000, [192, 0, 2, 6], false)),
         'c' => Ok(mk("192.0.2.3", "192.0.2.1", 65003, [192, 0, 2, 3], true)),
+        // the IPv6 session of the dual-stack neighbour 'a': same AS, same BGP identifier, another address
+        'd' => Ok(mk("2001:db8::22", "2001:db8::1", 65002, [192, 0, 2, 2], false)),
         _ => Err(format!("bad peer {c}")),
     }
 }
@@ -270,7 +272,7 @@ async fn tbl_async(case: &str, ops: &[Op]) -> Result<Vec<Violation>, String> {
 
     // peers: register the add-path peer's channel the way on_established does
     let mut peers: BTreeMap<char, PeerDef> = BTreeMap::new();
-    for c in ['a', 'b', 'c'] {
+    for c in ['a', 'b', 'c', 'd'] {
         peers.insert(c, peer_def(c)?);
     }
     let mut keep_rx = Vec::new();
@@ -717,6 +719,12 @@ fn tbl_cases(thorough: bool) -> Vec<String> {
                 }
             }
         }
+    }
+    // two sessions of one router (same BGP identifier, different addresses): each path belongs to its own session
+    for second in ["i.d.1.7.1.0.s13", "i.d.0.7.1.0.s13", "i.d.0.8.1.0.s300"] {
+        c.push(format!("tbl:i.a.0.7.1.0.s13;{second}"));
+        c.push(format!("tbl:{second};i.a.0.7.1.0.s13"));
+        c.push(format!("tbl:i.a.0.7.1.0.s13;{second};r.a.0.7.1"));
     }
     // every other family: insert, insert + remove, for the plain and the add-path peer
     let fams = mkmsg::families();
